@@ -431,6 +431,24 @@ def qname_rt(u: int, l: int, m: int) -> bool:
     return result(ok)
 
 
+def qname_two_step(u1: int, u2: int, m: int) -> bool:
+    """
+    pre: 0 <= u1 < len(_URIS)
+    pre: 0 <= u2 < len(_URIS)
+    pre: 0 <= m < len(_MAPS)
+    post: _
+    """
+    # two values serialised with ONE prefix map (as the writer does for one element scope): the first text must still denote
+    # the first value when read back with the map as it is after the second serialisation
+    c1, c2, cm = concretize(u1, len(_URIS)), concretize(u2, len(_URIS)), concretize(m, len(_MAPS))
+    with untraced():
+        ns_map = dict(_MAPS[cm])
+        q1, q2 = QName(_URIS[c1], "one"), QName(_URIS[c2], "two")
+        t1 = converter.serialize(q1, ns_map=ns_map)
+        t2 = converter.serialize(q2, ns_map=ns_map)
+        return result(converter.deserialize(t1, [QName], ns_map=ns_map) == q1 and converter.deserialize(t2, [QName], ns_map=ns_map) == q2)
+
+
 _KNOWN_NONS = known("C05-qname-nons-default")
 
 _BADQ = ["p:a", ":a", "a:", "a b", "1a", "", " ", "{urn:a}", "{}a", "{urn a}a", "x:y:z"]
@@ -480,6 +498,15 @@ class ETokens(Enum):
     T3 = (3,)
 
 
+class ETokQ(Enum):
+    AB = (QName("urn:a", "one"), QName("urn:b", "two"))
+    C = (QName("three"),)
+
+
+class ETokB(Enum):
+    X = (b"\x01\xab", b"\x02\xcd")
+
+
 def enum_int(d0: int, d1: int, lead: int) -> bool:
     """
     pre: 0 <= d0 <= 9
@@ -506,6 +533,23 @@ def enum_int(d0: int, d1: int, lead: int) -> bool:
 
 
 _ERAW = ["a", " a ", "a b", "a  b", "1", "b", "", "0.5", "5e-1", "1E22", "1e+22", "NaN", "{urn:a}x", "p:x", "y", "1 2", " 1  2 ", "3", "1 2 3", "2 1"]
+
+
+def enum_tokens_kw(k: int) -> bool:
+    """
+    pre: 0 <= k <= 2
+    post: _
+    """
+    ck = concretize(k, 3)
+    with untraced():
+        if ck == 0:
+            ns_map = {"p": "urn:a", "q": "urn:b"}
+            text = converter.serialize(ETokQ.AB, ns_map=ns_map)
+            return result(text == "p:one q:two" and converter.deserialize(text, [ETokQ], ns_map=ns_map) is ETokQ.AB)
+        if ck == 1:
+            return result(converter.deserialize(" three ", [ETokQ], ns_map={}) is ETokQ.C)
+        text = converter.serialize(ETokB.X, format="base16")
+        return result(text == "01AB 02CD" and converter.deserialize(text, [ETokB], format="base16") is ETokB.X)
 
 
 def enum_pool(c: int, r: int) -> bool:
@@ -915,6 +959,8 @@ def plan(tier):
     jobs.append(Job("bytes_pool", {}, T, 30, note="selector driven, real C binascii/base64 on a concrete pool"))
     jobs.append(Job("qname_rt", {}, T, 30, note="selector driven"))
     jobs.append(Job("qname_bad", {}, T, 30, note="selector driven"))
+    jobs.append(Job("qname_two_step", {}, T, 30, note="selector driven"))
+    jobs.append(Job("enum_tokens_kw", {}, T, 30, note="selector driven"))
     jobs.append(Job("enum_int", {}, T, 30))
     jobs.append(Job("enum_pool", {}, T, 30, note="selector driven"))
     if quick:
